@@ -33,9 +33,9 @@ def run(ctx):
     plans = [
         ("perm4", ["--perms", 4, "--seed", ctx.seed]),
         ("perm5", ["--perms", 5, "--seed", ctx.seed] + (["--sample", 4] if quick else [])),
-        ("rand", ["--seed", ctx.seed, "--count", 400 if quick else 6000, "--max-ops", 40 if quick else 120, "--reopen-pct", 8]),
-        ("refuse", ["--seed", ctx.seed + 7, "--count", 150 if quick else 2000, "--max-ops", 40, "--refusals", "--invalid-names"]),
-        ("deep", ["--seed", ctx.seed + 13, "--count", 60 if quick else 800, "--max-ops", 120, "--max-depth", 5]),
+        ("rand", ["--seed", ctx.seed, "--count", 1200 if quick else 6000, "--max-ops", 40 if quick else 120, "--reopen-pct", 8]),
+        ("refuse", ["--seed", ctx.seed + 7, "--count", 500 if quick else 2000, "--max-ops", 40, "--refusals", "--invalid-names"]),
+        ("deep", ["--seed", ctx.seed + 13, "--count", 200 if quick else 800, "--max-ops", 120, "--max-depth", 5]),
     ]
     if not quick:
         plans.append(("perm6", ["--perms", 6, "--seed", ctx.seed, "--sample", 2]))
